@@ -184,14 +184,18 @@ def r_feeder(e, R):
                     f"the feeder can resume after an error without the {nm}", e.loc(f, H.ast), g.fmt_path(esc) if esc else None)
         # the slot is released for the bounded-queue semaphore shipped by _start_thread
         rets = [n for n in g.nodes if n.kind == "stmt" and isinstance(n.ast, ast.Return) and g.dominates(H, n)]
+        def accepting(n, m, label):
+            # the two documented reasons to give up: EPIPE while ignore_epipe, interpreter exiting
+            if n.kind == "test" and label == "T":
+                txt = norm(n.ast)
+                if txt.endswith("is_exiting()") or "EPIPE" in txt:
+                    return False
+            return True
         for r in rets:
-            tests = [t for t in g.nodes if t.kind == "test" and g.dominates(H, t) and g.dominates(t, r)]
-            names = set()
-            for t in tests:
-                names |= {x.id for x in ast.walk(t.ast) if isinstance(x, ast.Name)} | {x.attr for x in ast.walk(t.ast) if isinstance(x, ast.Attribute)}
-            R.check(bool(names & {"ignore_epipe", "is_exiting"}), "R-FEEDER", f"{f.short}: early return {r!r} only for EPIPE-ignored / interpreter exiting",
+            esc = g.find_path(H, lambda n, r=r: n is r, use_exc=False, edge_ok=accepting)
+            R.check(esc is None, "R-FEEDER", f"{f.short}: early return {r!r} only for EPIPE-ignored / interpreter exiting",
                     f.short, norm(r.ast), "the feeder thread gives up on an error outside the two documented cases: every later task is never sent",
-                    e.loc(f, r.ast))
+                    e.loc(f, r.ast), g.fmt_path(esc) if esc else None)
         # the hook receives the object that failed
         for n in hook:
             for c in calls_in(n):
